@@ -140,14 +140,16 @@ theorem regime_eq (e : Event κ) (older : List (Event κ)) (h : ∀ p ∈ older,
 
 theorem refSpill_cons_cons (e p : Event κ) (rest : List (Event κ)) :
     refSpill (e :: p :: rest) =
-      if p.wd.W != e.wd.W then refSpill (p :: rest)
+      if !e.wd.spillOn then 0
+      else if p.wd.W != e.wd.W then refSpill (p :: rest)
       else if e.t / e.wd.W == p.t / e.wd.W then refSpill (p :: rest)
-      else if e.wd.spillOn then
-        (if dayOfMonth e.t == e.wd.renewDay then 0
-         else refSpill (p :: rest) + e.wd.allowed
-                - passesInWin e.wd.W (p.t / e.wd.W) (regime e (p :: rest)))
-      else refSpill (p :: rest) := by
+      else if dayOfMonth e.t == e.wd.renewDay then 0
+      else refSpill (p :: rest) + e.wd.allowed
+              - passesInWin e.wd.W (p.t / e.wd.W) (regime e (p :: rest)) := by
   rw [refSpill]
+
+theorem refSpill_single (e : Event κ) : refSpill [e] = 0 := by
+  simp [refSpill]
 
 theorem holdsKeyRev_append_right (cap : CapFn) (a b : List (Event κ)) (h : holdsKeyRev cap (a ++ b) = true) :
     holdsKeyRev cap b = true := by
@@ -177,16 +179,19 @@ def resetSpill (t : Nat) (wd : WindowData) (a : KeyState) : Int :=
     (if (dayOfMonth t == wd.renewDay) = true then 0 else a.spill + wd.allowed - (a.counter : Int))
   else a.spill
 
+/-- the spill-over `TryToIncrement` starts from: none when the feature is off (fix F09f) -/
+def spill0 (wd : WindowData) (s : KeyState) : Int := if wd.spillOn then s.spill else 0
+
 theorem adjust_same (wd : WindowData) (s : KeyState) (h : s.wd.W = wd.W) :
-    adjust wd s = ⟨s.counter, s.spill, s.windowEnd, wd⟩ := by
-  simp [adjust, h]
+    adjust wd s = ⟨s.counter, spill0 wd s, s.windowEnd, wd⟩ := by
+  simp [adjust, spill0, h]
 
 theorem adjust_diff (wd : WindowData) (s : KeyState) (h : s.wd.W ≠ wd.W) :
-    adjust wd s = ⟨s.counter, s.spill, 0, wd⟩ := by
-  simp [adjust, h]
+    adjust wd s = ⟨s.counter, spill0 wd s, 0, wd⟩ := by
+  simp [adjust, spill0, h]
 
 theorem adjust_of_zero (wd : WindowData) (s : KeyState) (h : s.windowEnd = 0) :
-    adjust wd s = ⟨s.counter, s.spill, 0, wd⟩ := by
+    adjust wd s = ⟨s.counter, spill0 wd s, 0, wd⟩ := by
   by_cases hW : s.wd.W = wd.W
   · rw [adjust_same _ _ hW, h]
   · exact adjust_diff _ _ hW
@@ -228,16 +233,18 @@ theorem tryInc_inv (cap : CapFn) (s : KeyState) (acc : List (Event κ))
   | nil =>
     obtain ⟨hwe, hsp⟩ := hinv
     have ha := adjust_of_zero wd s hwe
-    have hrsp : resetSpill t wd ⟨s.counter, s.spill, 0, wd⟩ = 0 := by simp [resetSpill, hsp]
+    have hsp0 : spill0 wd s = 0 := by simp [spill0, hsp]
+    rw [hsp0] at ha
+    have hrsp : resetSpill t wd ⟨s.counter, 0, 0, wd⟩ = 0 := by simp [resetSpill]
     rw [tryInc_reset cap t wd s _ ha rfl (Nat.zero_le _), hrsp]
     split
     · next hc =>
       try dsimp only at hc
       refine ⟨⟨rfl, hW, rfl, ?_, ?_, ?_⟩, ?_⟩
       · simp [regimeW, passesInWin]
-      · simp [refSpill]
+      · rw [refSpill_single]
       · simp
-      · simp only [eventOk, regime, regimeW, List.takeWhile_nil, passesInWin, refSpill]
+      · simp only [eventOk, regime, regimeW, List.takeWhile_nil, passesInWin, refSpill_single]
         simp only [Int.add_zero] at hc
         simp
         omega
@@ -245,9 +252,9 @@ theorem tryInc_inv (cap : CapFn) (s : KeyState) (acc : List (Event κ))
       try dsimp only at hc
       refine ⟨⟨rfl, hW, rfl, ?_, ?_, ?_⟩, ?_⟩
       · simp [regimeW, passesInWin]
-      · simp [refSpill]
+      · rw [refSpill_single]
       · simp
-      · simp only [eventOk, regime, regimeW, List.takeWhile_nil, passesInWin, refSpill]
+      · simp only [eventOk, regime, regimeW, List.takeWhile_nil, passesInWin, refSpill_single]
         simp only [Int.add_zero] at hc
         simp
         omega
@@ -263,8 +270,9 @@ theorem tryInc_inv (cap : CapFn) (s : KeyState) (acc : List (Event κ))
         have hlt : ¬ (s.windowEnd ≤ t) := by rw [hwe]; exact same_window_before _ _ _ hW hsame
         have hcnt' : passesInWin wd.W (t / wd.W) (regimeW wd.W (q :: rest)) = s.counter := by
           rw [hsame, hcnt]
-        have hrs : ∀ p : Bool, refSpill ((⟨rk, t, wd, p⟩ : Event κ) :: q :: rest) = s.spill := by
-          intro p; rw [refSpill_cons_cons]; simp [hWeq, hsame, hsp]
+        have hrs : ∀ p : Bool, refSpill ((⟨rk, t, wd, p⟩ : Event κ) :: q :: rest) = spill0 wd s := by
+          intro p; rw [refSpill_cons_cons]
+          cases hso : wd.spillOn <;> simp [spill0, hso, hWeq, hsame, hsp]
         rw [tryInc_keep cap t wd s _ ha rfl hlt]
         split
         · next hc =>
@@ -300,12 +308,14 @@ theorem tryInc_inv (cap : CapFn) (s : KeyState) (acc : List (Event κ))
           passesInWin_zero _ _ _ (fun e he =>
             older_not_in_new_window _ _ _ _ (hle e (mem_regimeW _ _ _ he)) hqt hsame)
         have hrs : ∀ p : Bool, refSpill ((⟨rk, t, wd, p⟩ : Event κ) :: q :: rest)
-            = resetSpill t wd ⟨s.counter, s.spill, s.windowEnd, wd⟩ := by
+            = resetSpill t wd ⟨s.counter, spill0 wd s, s.windowEnd, wd⟩ := by
           intro p
           have hne : ¬ (t / wd.W = q.t / wd.W) := hsame
           rw [refSpill_cons_cons]
-          simp only [resetSpill, regime, hwe0, Bool.and_true, beq_iff_eq, bne_iff_ne, ne_eq, hWeq,
-            not_true_eq_false, hne, if_false, ← hsp, ← hcnt]
+          cases hso : wd.spillOn
+          · simp [resetSpill, spill0, hso]
+          · simp only [resetSpill, spill0, hso, regime, hwe0, Bool.and_true, beq_iff_eq, bne_iff_ne, ne_eq, hWeq,
+              not_true_eq_false, hne, if_false, if_true, Bool.not_true, Bool.false_eq_true, ← hsp, ← hcnt]
         rw [tryInc_reset cap t wd s _ ha rfl hge]
         split
         · next hc =>
@@ -333,9 +343,10 @@ theorem tryInc_inv (cap : CapFn) (s : KeyState) (acc : List (Event κ))
     · -- the window size changed: counting starts afresh, the spill-over is carried as is
       have hsW' : s.wd.W ≠ wd.W := by rw [hsW]; exact hWeq
       have ha := adjust_diff wd s hsW'
-      have hrsp : resetSpill t wd ⟨s.counter, s.spill, 0, wd⟩ = s.spill := by simp [resetSpill]
-      have hrs : ∀ p : Bool, refSpill ((⟨rk, t, wd, p⟩ : Event κ) :: q :: rest) = s.spill := by
-        intro p; rw [refSpill_cons_cons]; simp [hWeq, hsp]
+      have hrsp : resetSpill t wd ⟨s.counter, spill0 wd s, 0, wd⟩ = spill0 wd s := by simp [resetSpill]
+      have hrs : ∀ p : Bool, refSpill ((⟨rk, t, wd, p⟩ : Event κ) :: q :: rest) = spill0 wd s := by
+        intro p; rw [refSpill_cons_cons]
+        cases hso : wd.spillOn <;> simp [spill0, hso, hWeq, hsp]
       have hreg : regimeW wd.W (q :: rest) = [] := regimeW_cons_diff _ _ _ hWeq
       rw [tryInc_reset cap t wd s _ ha rfl (Nat.zero_le _), hrsp]
       split
@@ -639,11 +650,104 @@ theorem ratioUnits_of_dvd (n d k : Nat) (hd : 0 < d) (hk : n * 1000000 = d * k) 
   rw [h1, Nat.mul_add_div (by omega : 0 < 2 * d), Nat.div_eq_of_lt (by omega : d < 2 * d)]
   omega
 
+/-- truncating division/remainder of a product term: ceiling by "truncate, plus one for a positive product with
+    a remainder" -/
+theorem ceil_of_trunc (P : Int) :
+    (if 0 < P ∧ tmodR P ≠ 0 then tdivR P + 1 else tdivR P) = -((-P) / 100000000) := by
+  unfold tmodR tdivR
+  split <;> split <;> omega
+
+/-- The Go formula (split into whole multiples of 1e8 and a rest) is ⌈count · units / 1e8⌉. -/
+theorem capGo_eq_ceil (count units : Int) :
+    capGo count units = -((-(count * units)) / 100000000) := by
+  have hsplit : count * units = 100000000 * (tdivR count * units) + tmodR count * units := by
+    unfold tmodR
+    rw [Int.sub_mul, Int.mul_assoc]
+    omega
+  have hc := ceil_of_trunc (tmodR count * units)
+  simp only [capGo]
+  rw [hsplit]
+  generalize tdivR count * units = A at *
+  generalize tmodR count * units = P at *
+  split at hc <;> split <;> omega
+
+/-- int64 range -/
+def fits64 (x : Int) : Prop := -9223372036854775808 ≤ x ∧ x ≤ 9223372036854775807
+
+/-- No intermediate of `scaledCeil` leaves int64, for EVERY int64 count and every ratio in [0, 1]
+    (units ≤ 1e8): the quotient, the remainder, both products, the partial sums and the result. -/
+theorem capGo_fits (count units : Int) (hc : fits64 count) (hu0 : 0 ≤ units) (hu1 : units ≤ 100000000) :
+    fits64 (tdivR count) ∧ fits64 (tmodR count) ∧ fits64 (tmodR count * units) ∧
+    fits64 (tdivR count * units) ∧ fits64 (tdivR (tmodR count * units)) ∧
+    fits64 (tmodR (tmodR count * units)) ∧
+    fits64 (tdivR count * units + tdivR (tmodR count * units)) ∧
+    (0 < tmodR count * units ∧ tmodR (tmodR count * units) ≠ 0 →
+      fits64 (tdivR count * units + tdivR (tmodR count * units) + 1)) := by
+  obtain ⟨hc1, hc2⟩ := hc
+  -- the quotient q and remainder r of count
+  have hq : (0 ≤ count → 0 ≤ tdivR count ∧ 100000000 * tdivR count ≤ count) ∧
+            (count < 0 → tdivR count ≤ 0 ∧ count ≤ 100000000 * tdivR count) := by
+    unfold tdivR; constructor <;> intro h <;> split <;> omega
+  have hr : -100000000 < tmodR count ∧ tmodR count < 100000000 ∧
+            (0 ≤ count → 0 ≤ tmodR count) ∧ (count < 0 → tmodR count ≤ 0) := by
+    unfold tmodR tdivR; split <;> omega
+  -- the product P = r·units lies strictly between −1e16 and 1e16
+  have hP : -10000000000000000 < tmodR count * units ∧ tmodR count * units < 10000000000000000 := by
+    rcases Int.le_total 0 (tmodR count) with h | h
+    · have h1 : 0 ≤ tmodR count * units := Int.mul_nonneg h hu0
+      have h2 : tmodR count * units ≤ tmodR count * 100000000 := Int.mul_le_mul_of_nonneg_left hu1 h
+      omega
+    · have h1 : tmodR count * units ≤ 0 := Int.mul_nonpos_of_nonpos_of_nonneg h hu0
+      have h2 : tmodR count * 100000000 ≤ tmodR count * units := Int.mul_le_mul_of_nonpos_left h hu1
+      omega
+  -- the product A = q·units lies between 0 and q·1e8 (on the side of count)
+  have hA : (0 ≤ count → 0 ≤ tdivR count * units ∧ tdivR count * units ≤ tdivR count * 100000000) ∧
+            (count < 0 → tdivR count * units ≤ 0 ∧ tdivR count * 100000000 ≤ tdivR count * units) := by
+    constructor
+    · intro h
+      exact ⟨Int.mul_nonneg (hq.1 h).1 hu0, Int.mul_le_mul_of_nonneg_left hu1 (hq.1 h).1⟩
+    · intro h
+      exact ⟨Int.mul_nonpos_of_nonpos_of_nonneg (hq.2 h).1 hu0, Int.mul_le_mul_of_nonpos_left (hq.2 h).1 hu1⟩
+  have hPd : -100000000 ≤ tdivR (tmodR count * units) ∧ tdivR (tmodR count * units) ≤ 100000000 ∧
+             -100000000 < tmodR (tmodR count * units) ∧ tmodR (tmodR count * units) < 100000000 ∧
+             (0 ≤ tmodR count * units → 0 ≤ tdivR (tmodR count * units) ∧
+                100000000 * tdivR (tmodR count * units) ≤ tmodR count * units) ∧
+             (tmodR count * units < 0 → tdivR (tmodR count * units) ≤ 0 ∧
+                tmodR count * units ≤ 100000000 * tdivR (tmodR count * units)) := by
+    generalize tmodR count * units = P at hP ⊢
+    unfold tmodR tdivR
+    split <;> omega
+  -- same sign of q·units and r·units (both follow the sign of count): the sum stays within |count|
+  have hsign : (0 ≤ count → 0 ≤ tmodR count * units) ∧ (count < 0 → tmodR count * units ≤ 0) :=
+    ⟨fun h => Int.mul_nonneg (hr.2.2.1 h) hu0, fun h => Int.mul_nonpos_of_nonpos_of_nonneg (hr.2.2.2 h) hu0⟩
+  have hP2 : (0 ≤ count → tmodR count * units ≤ tmodR count * 100000000) ∧
+             (count < 0 → tmodR count * 100000000 ≤ tmodR count * units) :=
+    ⟨fun h => Int.mul_le_mul_of_nonneg_left hu1 (hr.2.2.1 h),
+     fun h => Int.mul_le_mul_of_nonpos_left (hr.2.2.2 h) hu1⟩
+  have hcount : count = 100000000 * tdivR count + tmodR count := by unfold tmodR; omega
+  have hPeq : tmodR (tmodR count * units)
+      = tmodR count * units - 100000000 * tdivR (tmodR count * units) := rfl
+  unfold fits64
+  rcases Int.lt_or_le count 0 with hneg | hpos
+  · have := hq.2 hneg; have := hA.2 hneg; have := hr.2.2.2 hneg; have := hsign.2 hneg; have := hP2.2 hneg
+    refine ⟨?_, ?_, ?_, ?_, ?_, ?_, ?_, ?_⟩ <;> omega
+  · have := hq.1 hpos; have := hA.1 hpos; have := hr.2.2.1 hpos; have := hsign.1 hpos; have := hP2.1 hpos
+    refine ⟨?_, ?_, ?_, ?_, ?_, ?_, ?_, ?_⟩ <;> omega
+
+theorem ratioUnits_nonneg (r : Ratio) : 0 ≤ ratioUnits r := by
+  cases r with
+  | one => simp [ratioUnits]
+  | pct n d =>
+    simp only [ratioUnits]
+    split
+    · exact Int.le_refl 0
+    · exact Int.natCast_nonneg _
+
 theorem capUnits_eq_capExact (total : Int) (r : Ratio) (h6 : sixDecimals r = true) :
     capUnits total r = capExact total r := by
   cases r with
   | one =>
-    simp only [capUnits, capExact, ratioUnits]
+    simp only [capUnits, capExact, ratioUnits, capGo_eq_ceil]
     rw [← Int.neg_mul, Int.mul_ediv_cancel _ (by omega : (100000000 : Int) ≠ 0), Int.neg_neg]
   | pct n d =>
     simp only [sixDecimals, Bool.and_eq_true, bne_iff_ne, ne_eq, beq_iff_eq] at h6
@@ -651,7 +755,7 @@ theorem capUnits_eq_capExact (total : Int) (r : Ratio) (h6 : sixDecimals r = tru
     have hd : 0 < d := by omega
     obtain ⟨k, hk⟩ : ∃ k, n * 1000000 = d * k :=
       ⟨n * 1000000 / d, (Nat.mul_div_cancel' (Nat.dvd_of_mod_eq_zero hmod)).symm⟩
-    simp only [capUnits, capExact, ratioUnits_of_dvd n d k hd hk]
+    simp only [capUnits, capExact, ratioUnits_of_dvd n d k hd hk, capGo_eq_ceil]
     congr 1
     -- (-(total·n)) / (d·100) = (-(total·k)) / 10^8, via  ·10^6  and cancelling d
     have hkI : (n : Int) * 1000000 = (d : Int) * (k : Int) := by
